@@ -54,7 +54,12 @@ def cases(tier, seed):
         # near-ties: distinct scores 2e-6 apart must be treated as distinct thresholds
         for ga, gb in itertools.combinations_with_replacement(G2 + G3[::4], 2):
             yield {"groups": [ga, gb], "configs": "small", "seed": seed, "tier": tier, "near": True}
+        # three distinct scores within ~1e-5 of each other (a tolerance-based tie test lumps two of them but not the third)
+        for ga, gb in itertools.combinations_with_replacement(G3, 2):
+            yield {"groups": [ga, gb], "configs": "small", "seed": seed, "tier": tier, "near": 2}
     else:
+        for ga, gb in itertools.combinations_with_replacement(G23, 2):
+            yield {"groups": [ga, gb], "configs": "small3", "seed": seed, "tier": tier, "near": 2}
         for ga, gb in itertools.combinations_with_replacement(G23, 2):
             yield {"groups": [ga, gb], "configs": "small3", "seed": seed, "tier": tier, "near": True}
         for ga, gb in itertools.combinations_with_replacement(G23, 2):
@@ -98,7 +103,9 @@ def bounds(tier, seed):
 
 def dataset(case):
     pal = SCORE_PALETTES[case["seed"] % 4]
-    if case.get("near"):
+    if case.get("near") == 2:
+        pal = (0.69999, 0.699994, 0.7)
+    elif case.get("near"):
         pal = (pal[0], pal[0] + 2e-6 * max(1.0, abs(pal[0])), pal[2])
     if case.get("levels") == 4:
         pal = tuple(pal) + (pal[2] + (pal[2] - pal[1]) * 0.5,)
